@@ -123,8 +123,8 @@ pub fn profile_for(prop: &str, variant: u64, thorough: bool) -> Profile {
             p.p_dead_sel = 25;
         }
         "C07" => {
-            p.outside = [10, 2, 12, 12, 6, 24, 26, 1, 0, 0, 0, 1, 0];
-            p.incb = [2, 2, 10, 8, 5, 8, 0, 0, 0, 0, 0, 0, 0];
+            p.outside = [10, 2, 12, 12, 6, 24, 26, 1, 0, 0, 2, 1, 0];
+            p.incb = [2, 2, 10, 8, 5, 8, 0, 0, 0, 0, 1, 0, 0];
             p.p_cb_ops = 45;
             p.rets = [2, 6, 1, 0];
             p.update_disabled = true;
@@ -141,7 +141,8 @@ pub fn profile_for(prop: &str, variant: u64, thorough: bool) -> Profile {
             p.p_lifecycle = 15;
         }
         "C09" => {
-            p.kinds = [4, 3, 1, 4, 6, 2, 1, 5, 0];
+            p.kinds = [4, 3, 1, 4, 6, 2, 1, 5, 2];
+            p.p_child_ret = 25;
             p.p_lifecycle = 25;
             p.outside = [10, 3, 4, 4, 4, 26, 28, 1, 0, 0, 0, 1, 4];
             p.incb = [5, 6, 8, 3, 8, 6, 0, 0, 0, 0, 0, 0, 1];
@@ -165,8 +166,8 @@ pub fn profile_for(prop: &str, variant: u64, thorough: bool) -> Profile {
         "C14" => {
             p.kinds = [6, 2, 0, 3, 4, 0, 0, 3, 0];
             p.p_lifecycle = 60;
-            p.outside = [12, 5, 6, 6, 6, 20, 26, 1, 0, 0, 0, 1, 10];
-            p.incb = [3, 4, 4, 3, 4, 6, 0, 0, 0, 0, 0, 0, 3];
+            p.outside = [12, 5, 6, 6, 6, 20, 26, 1, 0, 0, 2, 1, 10];
+            p.incb = [3, 4, 4, 3, 4, 6, 0, 0, 0, 0, 1, 0, 3];
             p.p_fault = if variant % 2 == 0 { 20 } else { 0 };
             p.rets = [3, 3, 3, 0];
         }
@@ -314,6 +315,9 @@ fn gen_op(rng: &mut Rng, p: &Profile, incb: bool, depth: u32) -> Option<Op> {
             2 | 3 => Op::AdapterDrop(rng.below(4) as u8),
             _ => Op::AdapterIntoInner(rng.below(4) as u8),
         },
+        10 if p.name == "C16" && !incb && rng.chance(1, 4) => Op::UnwrapChild(gen_live_sel(rng, p, incb), rng.below(6) as u8),
+        10 if matches!(p.name.as_str(), "C14" | "C07") => Op::EnableAgain(gen_live_sel(rng, p, incb)),
+        10 if p.name == "C15" && rng.chance(1, 3) => Op::EnableAgain(gen_live_sel(rng, p, incb)),
         10 if matches!(p.name.as_str(), "C15" | "C02" | "C08") && rng.chance(2, 3) => Op::RegisterAgain(gen_live_sel(rng, p, incb)),
         10 => match rng.below(5) {
             0 | 1 => Op::ProbeDead,
